@@ -586,17 +586,40 @@ class R:
                         raise ZeroDivisionError("symbolic zero division")
                     ctx.nonzero.add(g)
             return R({tuple((g, -e) for g, e in m): 1 / c})
-        key = ("inv", _key(s))
+        # normalise: pull out the common monomial (non-zero generators) and the leading coefficient, so that
+        # 1/(k^4 * D) and 1/D share one reciprocal generator
+        p = s.p
+        gens = set()
+        for m in p:
+            for g, _ in m:
+                gens.add(g)
+        common = []
+        for g in sorted(gens):
+            if g not in ctx.nonzero:
+                continue
+            e = min(dict(m).get(g, 0) for m in p)
+            if e:
+                common.append((g, e))
+        if common:
+            cm = tuple((g, -e) for g, e in common)
+            p = {_mmul(m, cm): c for m, c in p.items()}
+        lead_m = max(p, key=lambda m: (sum(abs(e) for _, e in m), m))
+        lead = p[lead_m]
+        prim = R({m: c / lead for m, c in p.items()})
+        pre = R({tuple((g, -e) for g, e in common): 1 / lead})
+        if len(prim.p) == 1:
+            return pre * prim.inv()
+        key = ("inv", _key(prim))
         g = ctx.memo.get(key)
         if g is None:
-            sg = s.sign_syntactic()
+            sg = prim.sign_syntactic()
             if sg is None:
-                if not ctx.branch(s.z() != 0):
+                if not ctx.branch(prim.z() != 0):
                     raise ZeroDivisionError("symbolic zero division")
             g = ctx.new_gen(f"inv!{len(ctx.names)}", nonzero=True, positive=(sg == 1))
-            ctx.add(ctx.zv[g] * s.z() == 1)
+            ctx.add(ctx.zv[g] * prim.z() == 1)
             ctx.memo[key] = g
-        return R.gen(g)
+        return pre * R.gen(g)
 
     def __truediv__(s, o):
         o = R.lift(o)
@@ -951,6 +974,10 @@ def _uf(name, arg):
     if g is None:
         g = ctx.new_gen(f"{name}!{len(ctx.names)}")
         ctx.memo[key] = g
+        # functional consistency (Ackermann) with the earlier applications of the same function
+        for (n2, a2, g2) in ctx.uf_apps:
+            if n2 == name:
+                ctx.add(z3.Implies(arg.z() == a2.z(), ctx.zv[g] == ctx.zv[g2]))
         ctx.uf_apps.append((name, arg, g))
     return R.gen(g)
 
@@ -968,6 +995,9 @@ def _pow_uf(base, expo):
     if g is None:
         g = ctx.new_gen(f"POW!{len(ctx.names)}")
         ctx.memo[key] = g
+        for (n2, a2, g2) in ctx.uf_apps:
+            if n2 == "POW":
+                ctx.add(z3.Implies(z3.And(base.z() == a2[0].z(), expo.z() == a2[1].z()), ctx.zv[g] == ctx.zv[g2]))
         ctx.uf_apps.append(("POW", (base, expo), g))
     return R.gen(g)
 
